@@ -9,9 +9,8 @@ class C12(EngineProp):
     id = 'C12'
     lean_modules = ['RSocketModel.Props.C12']
     profiles = ['hostile', 'hostile', 'legal']
-    claimed = False   # until the Lean theorems land
     technique = 'Lean 4 proof (totality + locality of the engine step) + event-level differential correspondence on hostile frame sequences, and byte-level robustness runs'
-    level_text = 'see DESIGN.md §5 C12'
+    level_text = ('c12_sends_local, c12_other_streams_untouched (for every well-formed state, received frame and handler behaviour), c12_handler_failure_contained, c12_probe_served and c12_total are kernel-checked on the engine model (the state invariant WF is proved preserved by every entry point); scripts mixing legal traffic with frames of any type on any stream and raising handlers are run against a real endpoint, replayed on the model, and followed by a probe request that must be answered.')
     level_note = 'Trusted: as C07; out-of-domain regions of the decoder are robustness-checked only.'
     design_ref = '§5 C12'
     rule = ('scripts mixing legal traffic with frames of any type on any stream (unknown, finished, live, 0), wrong types for the role, duplicate ids, fragments of a different type, '
